@@ -314,6 +314,9 @@ func dumpSet(ss *j5schema.SchemaSet) string {
 	d.tok("[")
 	for _, n := range pn {
 		p := ss.Packages[n]
+		if len(p.Schemas) == 0 {
+			continue // a package without schemas carries nothing
+		}
 		d.tok("(")
 		d.str(p.Name)
 		sn := make([]string, 0, len(p.Schemas))
